@@ -34,7 +34,7 @@ func init() {
 		MinEvals:        floor(100000, 3000000),
 		MinDistinct:     floor(20000, 500000),
 		RequiredCells: func(string) []string {
-			cells := []string{"purity/select/history", "purity/select/concurrent", "reuse", "reuse/slice-or-negative", "matrix/kind-x-segment", "slice-table/list", "slice-table/bytes", "slice-table/string", "split/prefix-value", "split/prefix-error", "model/value", "model/no-value", "model/error", "model/unspecified", "field/empty-name", "iter/map-then-more", "iter/list-then-more"}
+			cells := []string{"purity/select/history", "purity/select/concurrent", "flaky/while-failing", "flaky/4-calls/healthy-phase-0", "flaky/4-calls/healthy-phase-2", "flaky/3-calls/healthy-phase-1", "flaky/3-calls/healthy-phase-2", "reuse", "reuse/slice-or-negative", "matrix/kind-x-segment", "slice-table/list", "slice-table/bytes", "slice-table/string", "split/prefix-value", "split/prefix-error", "model/value", "model/no-value", "model/error", "model/unspecified", "field/empty-name", "iter/map-then-more", "iter/list-then-more"}
 			for _, k := range []string{"identity", "field", "index", "slice", "iter"} {
 				for _, d := range []string{"map", "list", "bytes", "string", "int", "null"} {
 					cells = append(cells, "seg/"+k+"/on="+d)
@@ -505,6 +505,7 @@ func runC12(w *mon.W) {
 	}
 	c12Long(w)
 	c12Reuse(w)
+	c12Flaky(w)
 	r := w.Rng
 	// exhaustive slice table
 	idx := 0
